@@ -101,6 +101,12 @@ def main(tier):
                 if e and len(ops_n) == 1 and ops_n[0][1] == e["?op"] and ops_n[0][2] == ("a",):
                     # the Some branch wraps the result in Integer
                     ok = any(M(("match", ops_n[0], (("pvar", "Option::Some", ("bind", "?s")), ("Ok", ("I", ("var", "?s")))), "..."), s) is not None for s in subterms(tn))
+            if not ok and surf == "^" and rn and ri and e and e["?op"] == "i64::checked_pow":
+                # the same statement read off the decision table of the arm (sc/props/c09.py: int_pow_table): for every exponent in
+                # 0..=u32::MAX, `a.checked_pow(b)` = Some(p) yields Integer(p)
+                from .c09 import int_pow_table
+                tb_ = int_pow_table(T.alpha(tn))
+                ok = tb_ is not None and (True, "exact") in tb_["u32"] and all(k_[1] != "exact" for k_ in tb_["u32"] if not k_[0])
             run.ob(ok, "int|%s" % surf, "C15 eval_i64 = Ok(v) => eval_number = Integer(v): same checked operation, same operand order, Integer-wrapped", "%s %r" % (W, surf), d,
                    sample={"operator": surf, "both_use": d})
         for kind, surf, pn, pi_ in (("bin", "%", "(if (op eq i64 (b) (lit 0 i64)) _ (Ok (I (call i64::wrapping_rem (a) (b)))))", "(if (op eq i64 (ev (A1)) (lit 0 i64)) (Err) (Ok (call i64::wrapping_rem (ev (A0)) (ev (A1)))))"),
